@@ -155,6 +155,7 @@ def run(ctx):
     peers.append((q, ['corpus-D11']))
     for _ in range(ctx.scale(400, 10000)):
         peers.append((gen_peer(r, db), ['generated']))
+    stale = [0]
     for q, tags in peers:
         text, pol = impl_make_and_load(q)
         has_eq = any('=' in n for k in ('key', 'kex', 'enc', 'mac') for n in q[k])
@@ -163,6 +164,7 @@ def run(ctx):
         if isinstance(pol, Exception):
             fail('made_policy_does_not_load', {'peer': q}, repr(pol), 'the -M output loads without error')
             continue
+        pol0 = copy.deepcopy(pol)
         st = policy_struct(pol)
         lines.append('policy.made %s' % peer_tokens(q))
         expect.append(('made', st, q))
@@ -187,6 +189,21 @@ def run(ctx):
                      'fails and names the field %r' % fld)
             lines.append('policy.evaluate %s %s' % (policy_tokens(p), peer_tokens(q2)))
             expect.append(('eval', res, q2))
+        # one loaded policy evaluated on several peers in a row (what a multi-target policy scan does): every verdict equals that of a fresh policy object
+        hist = [q2 for _, q2 in perturbations(r, q)][:2]
+        seq = hist[:1] + [q] + hist[1:] + [q]
+        for idx, qq in enumerate(seq):
+            passed, errs, _ = pol.evaluate(FakeBanner(qq['banner_str']), mk_kex(qq))
+            got_seq = {'passed': passed, 'errors': [dict(e) for e in errs]}
+            fresh = eval_loaded(pol0, qq)
+            cov.add(('history', idx, json.dumps(qq, sort_keys=True)), True, tags=['evaluation-history'])
+            # (the verdict only: on the unchanged tree the *error list* of a re-used Policy object still holds the previous peer's entries —
+            #  `_errors` is never reset — which the tool never shows because every target gets its own deep copy of the policy; observation D35)
+            if got_seq['passed'] != fresh['passed']:
+                fail('verdict_depends_on_evaluation_history', {'peer': q, 'sequence': seq[:idx + 1]}, got_seq, fresh)
+                break
+            if got_seq['errors'] != fresh['errors']:
+                stale[0] += 1
     # built-in policies on a peer configured exactly as listed
     for name, bp in BUILTIN_POLICIES.items():
         pol = Policy.load_builtin_policy(name)
@@ -207,7 +224,8 @@ def run(ctx):
     return {'failures': failures, 'mismatches': mismatches, 'coverage': cov, 'corr_cases': len(model),
             'assumptions': ['json.loads(json.dumps(d)) == d for the host_key_sizes / dh_modulus_sizes dictionaries (external function, exercised on every generated peer)',
                             'names are RFC 4251 printable names (no comma, no white space, no newline) as in the property\'s quantifier'],
-            'observations': []}
+            'observations': (['D35: a Policy object evaluated on several peers in a row keeps the earlier peers\' entries in its error list (%d of the sequences here); the verdict is unaffected, and the tool '
+                              'never re-uses a Policy object (one deep copy per target), so this is outside the property\'s quantifier' % stale[0]] if stale[0] else [])}
 
 
 def replay(obj):
@@ -220,6 +238,16 @@ def replay(obj):
     if isinstance(pol, Exception):
         print('the -M output does not load:', repr(pol))
         return 1
+    if 'sequence' in f['input']:
+        bad = False
+        pol0 = copy.deepcopy(pol)
+        for qq in f['input']['sequence']:
+            passed, errs, _ = pol.evaluate(FakeBanner(qq['banner_str']), mk_kex(qq))
+            fresh = eval_loaded(pol0, qq)
+            print('re-used object: passed=%s; fresh object: passed=%s' % (passed, fresh['passed']))
+            bad |= passed != fresh['passed']
+        print('PROPERTY FAILS' if bad else 'property holds on this input')
+        return 1 if bad else 0
     q2 = f['input'].get('perturbed_peer', q)
     res = eval_loaded(pol, q2)
     print(json.dumps(res)[:1200])
